@@ -216,3 +216,50 @@ def run_witnesses(repo):
         return res
     finally:
         shutil.rmtree(tmp, ignore_errors=True)
+
+
+def r_iter_positions(F, R, cat=None):
+    """Every method of a read-item iterator (next and any specialisation such as nth, last,
+    count ...) obtains the positions it looks up from its underlying range iterator's own
+    methods, never from arithmetic on the range's fields."""
+    from model import Catalogue
+    from core import base_places
+    cat = cat or Catalogue(F)
+    # iterator types whose next() looks positions up in an index container
+    types = set()
+    for b in F.methods_of_trait("Iterator", "next"):
+        if b.derived or not b.self_adt or not b.self_adt.startswith("impls::"):
+            continue
+        ctx, effs = cat.effects(b)
+        if any(e.tag == ("IndexContainer", "index") for e in effs):
+            types.add(b.self_adt)
+    n = 0
+    for b in F.methods_of_trait("Iterator"):
+        if b.self_adt not in types or b.kind != "AssocFn":
+            continue
+        ctx, effs = cat.effects(b)
+        for e in effs:
+            if e.tag != ("IndexContainer", "index") or len(e.argorigins) < 2:
+                continue
+            n += 1
+            R.saw(b)
+            ok = True
+            why = []
+            for o in e.argorigins[1]:
+                for (c, (r, p)) in base_places(e.ctx, o):
+                    if r[0] == "call":
+                        tag = callee_tag(c.body.term(r[1]).get("callee"))
+                        if tag[0] in ("Iterator", "DoubleEndedIterator") and tag[1] in (
+                                "next", "next_back", "nth", "nth_back", "last"):
+                            why.append("%s::%s of the range" % tag)
+                            continue
+                        ok = False
+                        why.append("result of %s::%s" % tag)
+                    elif r[0] == "arg" and "[]" in p and p[0].startswith("f:"):
+                        why.append("an element yielded by iterating self.%s" % p[0][2:])
+                    else:
+                        ok = False
+                        why.append("computed from %s" % c.org.describe((r, p)))
+            R.check("R-ITER", b.label(), ok, construct="looked-up position comes from the range iterator",
+                    where=e.where(), detail="; ".join(sorted(set(why))))
+    R.floor("R-ITER", "position lookups in read-item iterators", n, 1)
